@@ -422,6 +422,13 @@ class Site(interfaces.ObservableResource, PathCapable):
             return self._resources[request.opt.uri_path], stripped
 
         if not request.opt.uri_path:
+            if original_request_path and ("",) in self._resources:
+                # This is a nested site whose root was addressed (the outer
+                # site took off the trailing slash); a resource registered
+                # at [""] rather than [] is listed under that address too.
+                stripped = request.copy(uri_path=())
+                stripped._original_request_path = original_request_path
+                return self._resources[("",)], stripped
             raise KeyError()
 
         remainder = [request.opt.uri_path[-1]]
